@@ -35,9 +35,9 @@ def check(ctx):
 
 
 MANIFEST = {
-    "technique": "static analysis: must-dataflow (non-null facts, error-recorded facts) on MIR of every extern \"C\" fn, who-may-call ownership table, panic-site discharge",
+    "technique": "static analysis: must-dataflow (non-null facts, error-recorded facts) on MIR of every extern \"C\" fn, who-may-call ownership table, panic-site discharge; forward state analysis (tested pointer arguments x error recorded) for null reporting on every path",
     "level": "Library-side static proof obligations for the whole C boundary: no pointer argument is dereferenced, wrapped by CStr::from_ptr or "
-    "stored before a null test that dominates the use (all paths); every null arm records an error; allocation and deallocation are paired by "
+    "stored before a null test that dominates the use (all paths); every null arm records an error and every return without an error record lies on paths that tested every pointer argument (N4); allocation and deallocation are paired by "
     "type and confined to the two destroy functions; no panic site is reachable inside an extern \"C\" function. The existing suite has no C API "
     "tests beyond doctests; this covers all 91 functions and all their paths.",
     "note": "Not decided: caller-side protocol violations and aliasing of borrowed entry pointers after container mutation (need the call history). "
